@@ -8,13 +8,43 @@ import speccheck
 SPEC = {"eqb": "op_eqb_c04", "extra_imports": "",
         "oracle": "prop_C04"}
 
+def product_cases(rng):
+    """The finite product method-level x controller-level x default x enforce, with a visible and a
+    hidden method per project (a seeded sample in quick, all of it in thorough)."""
+    import os as _os
+    levels = [[], [{"name": "sec1", "scopes": []}], [{"name": "sec1", "scopes": ["a"]}, {"name": "sec2", "scopes": []}],
+              [{"name": "sec2", "scopes": ["a"]}, {"name": "sec2", "scopes": ["a"]}]]
+    out = []
+    for ms in levels:
+        for hs in levels:
+            for cs in levels:
+                for dflt in (None, {"name": "sec1", "scopes": ["d"]}):
+                    for enforce in (False, True):
+                        def meth(name, verb, route, hidden, sec):
+                            return {"name": name, "verb": verb, "route": route, "hidden": hidden, "deprecated": False,
+                                    "security": [dict(x) for x in sec], "params": [], "ret": None, "errtype": "error",
+                                    "response": None, "errors": [], "descr": "", "file": 0}
+                        out.append({
+                            "config": {"schemes": ["sec1", "sec2"], "default_security": dflt, "enforce": enforce,
+                                       "engine": "gin", "title": "API", "version": "1", "base_url": "https://a.example.com"},
+                            "controllers": [{"name": "PCtl", "pkg": "ctl", "tag": "P", "route": "/p",
+                                             "security": [dict(x) for x in cs], "descr": "",
+                                             "methods": [meth("Vis", "GET", "/v", False, ms),
+                                                         meth("Hid", "DELETE", "/h", True, hs)]}],
+                            "types": ["Item"]})
+    if _os.environ.get("VERIF_TIER", "") == "thorough" or "thorough" in sys.argv:
+        return out
+    return rng.sample(out, 24)
+
+
 if __name__ == "__main__":
     res = speccheck.run(
-        "C04", SPEC, {"security": True, "params": False, "multipkg": True, "undeclared": True, "enforce": True}, 40, 300,
+        "C04", SPEC, {"security": True, "params": False, "multipkg": True, "undeclared": True, "enforce": True}, 24, 300,
         rule="seeded abstract projects over the product method-level x controller-level x default security "
              "(absent, one, several, repeated scheme, with/without scopes, undeclared scheme) x enforce flag, "
              "rendered and run through the real CLI for 3.0.0 and 3.1.0; non-trivial = at least one operation "
              "with a non-empty security list emitted, or the project was rejected",
         assumptions=["go/packages discovery and kin-openapi/libopenapi rendering are exercised, not modelled"],
-        nontrivial=lambda p, ops: ops is None or any(o["security"] for o in ops))
+        nontrivial=lambda p, ops: ops is None or any(o["security"] for o in ops),
+        extra_cases=product_cases)
     sys.exit(res.finish())
